@@ -1,5 +1,6 @@
 """Statement / expression evaluation over the real AST (subclass of engine.Path)."""
 import ast
+import re
 import z3
 
 from .values import *  # noqa: F401,F403
@@ -145,10 +146,201 @@ class Exec(Path):
 
     def st_If(self, s):
         c = self.truth(self.eval(s.test))
+        cs = z3.simplify(c)
+        if (not z3.is_true(cs) and not z3.is_false(cs) and self.merge_enabled() and _mergeable(s.body) and _mergeable(s.orelse)):
+            if self.try_merge_if(s, cs):
+                return
         if self.branch(c):
             self.exec_block(s.body)
         else:
             self.exec_block(s.orelse)
+
+    # -- state merging for simple conditionals (keeps the number of paths down) --------------------------
+    def merge_enabled(self):
+        fn = self.func_stack[0]["contract"]
+        return bool(fn is not None and fn.extra.get("merge_ifs")) and not self.pure
+
+    def try_merge_if(self, s, c):
+        """execute both arms from a snapshot, under c / not c, and join the two states with ite.  Any branching,
+        raise or unsupported construct inside an arm aborts the attempt (the `if` then forks as usual)."""
+        if not (self.feasible(c) and self.feasible(z3.Not(c))):
+            return False
+        snap_env = [dict(f) for f in self.frames]
+        snap_heap = {k: v.clone() for k, v in self.heap.items()}
+        snap = (len(self.pc), self.next_ref, dict(self.counter), len(self.obligations), len(self.events), dict(self.ghost))
+        results = []
+        self.merging = getattr(self, "merging", 0) + 1
+        ok = True
+        try:
+            for cond, block in ((c, s.body), (z3.Not(c), s.orelse)):
+                self.frames = [dict(f) for f in snap_env]
+                self.heap = {k: v.clone() for k, v in snap_heap.items()}
+                del self.pc[snap[0]:]
+                self.solver.push()
+                self.solver.add(cond)
+                self.pc.append(cond)
+                try:
+                    self.exec_block(block)
+                    results.append(([dict(f) for f in self.frames], self.heap, list(self.pc[snap[0] + 1:])))
+                except (PyRaise, Unsupported, MergeAbort, CtlReturn, CtlBreak, CtlContinue, PathEnd):
+                    ok = False
+                finally:
+                    self.solver.pop()
+                if not ok or len(self.obligations) != snap[3] or len(self.events) != snap[4]:
+                    ok = False
+                    break
+        finally:
+            self.merging -= 1
+        if not ok:
+            # restore and let the caller fork normally
+            self.frames = snap_env
+            self.heap = snap_heap
+            del self.pc[snap[0]:]
+            del self.obligations[snap[3]:]
+            del self.events[snap[4]:]
+            self.counter = snap[2]
+            self.ghost = snap[5]
+            return False
+        (env1, heap1, pc1), (env2, heap2, pc2) = results
+        del self.pc[snap[0]:]
+        for f in pc1:
+            self.assume(z3.Implies(c, f))
+        for f in pc2:
+            self.assume(z3.Implies(z3.Not(c), f))
+        # join heaps
+        self.heap = {}
+        saved_mh = getattr(self, "_merge_heaps", None)
+        self._merge_heaps = (heap1, heap2)
+        for rid in sorted(set(heap1) | set(heap2)):
+            if rid in heap1 and rid in heap2:
+                self.heap[rid] = self.merge_obj(c, heap1[rid], heap2[rid], heap1, heap2)
+            else:
+                self.heap[rid] = heap1.get(rid) or heap2.get(rid)
+        # join environments
+        frames = []
+        for f1, f2 in zip(env1, env2):
+            fr = {}
+            for k in f1:
+                if k in f2:
+                    fr[k] = self.merge_val(c, f1[k], f2[k])
+            frames.append(fr)
+        self.frames = frames
+        self._merge_heaps = saved_mh
+        return True
+
+    def box_in(self, v, heap):
+        saved = self.heap
+        self.heap = heap
+        try:
+            return self.box(v)
+        finally:
+            self.heap = saved
+
+    def merge_val(self, c, a, b):
+        if a is b:
+            return a
+        if isinstance(a, VRef) and isinstance(b, VRef) and a.rid == b.rid:
+            return a
+        if type(a) is type(b) and isinstance(a, (VInt, VBool, VStr, VBytes, VFloat, VBox)):
+            if a.t.eq(b.t):
+                return a
+            return type(a)(z3.If(c, a.t, b.t))
+        if isinstance(a, VNone) and isinstance(b, VNone):
+            return a
+        if isinstance(a, VTuple) and isinstance(b, VTuple) and len(a.items) == len(b.items):
+            return VTuple([self.merge_val(c, x, y) for x, y in zip(a.items, b.items)])
+        if isinstance(a, (VClass, VFunc, VBuiltin, VModule)) and type(a) is type(b) and repr(a) == repr(b):
+            return a
+        h1, h2 = self._merge_heaps
+        return VBox(z3.If(c, self.box_in(a, h1), self.box_in(b, h2)))
+
+    def merge_obj(self, c, h1, h2, heap1, heap2):
+        if isinstance(h1, HBytes):
+            return h1 if h1.t.eq(h2.t) else HBytes(z3.If(c, h1.t, h2.t))
+        if isinstance(h1, HObj):
+            out = HObj(h1.cls)
+            for k in h1.fields:
+                if k in h2.fields:
+                    out.fields[k] = self.merge_val(c, h1.fields[k], h2.fields[k])
+            return out
+        if isinstance(h1, HFile):
+            if h1.pos.eq(h2.pos) and h1.closed == h2.closed:
+                return h1
+            if h1.closed != h2.closed:
+                raise Unsupported("merge of open/closed file")
+            return HFile(h1.path, h1.content, z3.If(c, h1.pos, h2.pos), h1.mode, h1.closed)
+        if isinstance(h1, HHash):
+            return h1 if h1.acc.eq(h2.acc) else HHash(h1.algo, z3.If(c, h1.acc, h2.acc))
+        if isinstance(h1, HSet):
+            return h1 if h1.has.eq(h2.has) else HSet(z3.If(c, h1.has, h2.has))
+        if isinstance(h1, HList):
+            if h1.items is not None and h2.items is not None and len(h1.items) == len(h2.items):
+                out = HList(items=[self.merge_val(c, x, y) for x, y in zip(h1.items, h2.items)])
+                out.tag = dict(h1.tag)
+                return out
+            if h1.seq is not None and h2.seq is not None and h1.seq.eq(h2.seq) and h1.rule is h2.rule:
+                return h1
+            saved = self.heap
+            self.heap = heap1
+            s1 = self.list_seq(h1)
+            self.heap = heap2
+            s2 = self.list_seq(h2)
+            self.heap = saved
+            return HList(seq=z3.If(c, s1, s2))
+        if isinstance(h1, HDict):
+            same_shape = (h1.sym is None) == (h2.sym is None) and (h1.sym is None or all(x.eq(y) for x, y in zip(h1.sym, h2.sym)))
+            if h1.sym is None and same_shape and list(h1.over.keys()) == list(h2.over.keys()) and all(
+                    (h1.over[k] is DELETED) == (h2.over[k] is DELETED) for k in h1.over):
+                out = HDict(sym=h1.sym)
+                out.tag = dict(h1.tag)
+                for k in h1.over:
+                    out.over[k] = DELETED if h1.over[k] is DELETED else self.merge_val(c, h1.over[k], h2.over[k])
+                return out
+            same_sym = (h1.sym is not None and h2.sym is not None and all(x.eq(y) for x, y in zip(h1.sym, h2.sym)))
+            if same_sym:
+                # pointwise join of the override entries over a common symbolic base (keeps formulas small)
+                out = HDict(sym=h1.sym)
+                out.tag = dict(h1.tag)
+                for k in list(h1.over.keys()) + [k for k in h2.over if k not in h1.over]:
+                    e1, e2 = h1.over.get(k, MISSING), h2.over.get(k, MISSING)
+                    if e1 is e2 or (e1 is DELETED and e2 is DELETED):
+                        out.over[k] = e1
+                    elif isinstance(e1, VRef) and isinstance(e2, VRef) and e1.rid == e2.rid:
+                        out.over[k] = e1
+                    elif isinstance(e1, Val) and isinstance(e2, Val) and not isinstance(e1, VRef) and not isinstance(e2, VRef) \
+                            and type(e1) is type(e2) and isinstance(e1, (VInt, VBool, VStr, VBytes, VFloat, VBox)):
+                        out.over[k] = self.merge_val(c, e1, e2)
+                    else:
+                        def snap(e, hp):
+                            if isinstance(e, VRef):       # nested object that exists on one side only: snapshot
+                                saved = self.heap
+                                self.heap = hp
+                                try:
+                                    return VBox(self.box(e))
+                                finally:
+                                    self.heap = saved
+                            return e
+                        out.over[k] = Cond(c, snap(e1, heap1), snap(e2, heap2))
+                return out
+            # general case: fold the non-reference part of both and select with ite; common references stay on top
+            common = {k: v for k, v in h1.over.items()
+                      if isinstance(v, VRef) and isinstance(h2.over.get(k), VRef) and h2.over[k].rid == v.rid}
+            terms = []
+            for h, hp in ((h1, heap1), (h2, heap2)):
+                saved = self.heap
+                self.heap = hp
+                try:
+                    terms.append(self.dict_term(h))
+                finally:
+                    self.heap = saved
+            t1, t2 = terms
+            out = HDict(sym=(z3.If(c, PV.dkeys(t1), PV.dkeys(t2)), z3.If(c, PV.dhas(t1), PV.dhas(t2)), z3.If(c, PV.dmap(t1), PV.dmap(t2))))
+            out.over = dict(common)
+            out.tag = dict(h1.tag)
+            return out
+        if h1 is h2:
+            return h1
+        raise Unsupported(f"merge of {type(h1).__name__}")
 
     def st_With(self, s):
         # only `with open(...) as fd:` -- enter binds the handle, exit closes it
@@ -281,8 +473,24 @@ class Exec(Path):
         # 4. branch on condition
         if self.branch(cond()):
             try:
+                idx_before = self.env.get(idxname) if idxname else None
                 if pre_body:
                     pre_body()
+                # extra ground instances of ghost-quantified invariants (sound: they are proved for arbitrary ghost values)
+                for g, exprs in spec.get("instantiate", {}).items():
+                    for ex in exprs:
+                        val = self.eval_contract_expr(ex, want_bool=False)
+                        saved_g, saved_i = self.env.get(g), self.env.get(idxname) if idxname else None
+                        self.env[g] = val
+                        if idxname:
+                            self.env[idxname] = idx_before
+                        for inv in invs:
+                            props, lab, expr = self._clause(inv, fn)
+                            if re.search(r"\b%s\b" % re.escape(g), expr):
+                                self.assume(self.eval_contract_expr(expr))
+                        self.env[g] = saved_g
+                        if idxname:
+                            self.env[idxname] = saved_i
                 self.exec_block(s.body)
             except CtlBreak:
                 return
@@ -410,11 +618,13 @@ class Exec(Path):
             h.items, h.rule = None, None
             h.seq = self.fresh(name, PVSEQ)
         elif isinstance(h, HDict):
-            if any(isinstance(x, VRef) for x in h.over.values()):
+            if any(isinstance(x, VRef) for x in h.over.values()) and h.sym is not None:
                 # keep nested object identity, havoc their contents
-                for k, x in h.over.items():
+                for k, x in list(h.over.items()):
                     if isinstance(x, VRef):
                         self.havoc_heap(x, f"{name}_{k}")
+                    elif isinstance(x, Cond):
+                        del h.over[k]
                     elif x is not DELETED:
                         h.over[k] = self.havoc_value(x, f"{name}_{k}")
                 if h.sym is not None:
@@ -812,7 +1022,7 @@ class Exec(Path):
         if isinstance(obj, VRef):
             h = self.heap[obj.rid]
             if isinstance(h, HDict):
-                if not self.branch(self.dict_has(h, key)):
+                if not self.pure and not self.branch(self.dict_has(h, key)):
                     self.raise_("KeyError")
                 return self.dict_get(h, key)
             if isinstance(h, HList):
@@ -1377,6 +1587,14 @@ class Exec(Path):
                 props, lab, expr = self._clause(r, self.func_stack[-1])
                 self.oblige(f"call {info.qualname}:{lab or j}", "pre@call", self.eval_contract_expr(expr), props,
                             note=f"line {getattr(self, 'cur_line', '?')}")
+            topc = self.func_stack[0]["contract"]
+            if topc is not None and len(self.func_stack) == 2:
+                for cl in topc.extra.get("call_obligations", {}).get(info.qualname, []):
+                    props, lab, expr = self._clause(cl, self.func_stack[0])
+                    for k, v in self.frames[-2].items():
+                        self.env.setdefault("caller_" + k, v)
+                    self.oblige(f"at call {info.name}:{lab}", "call-site", self.eval_contract_expr(expr), props,
+                                note=f"line {getattr(self, 'cur_line', '?')}")
             old = self.snapshot()
             vi = c.select_variant(self, bound)
             for k, v in list(bound.items()):
@@ -1406,9 +1624,18 @@ class Exec(Path):
             self.env["result"] = result
             saved_old = self.old
             self.old = old
+            ghosts = list(c.ghost.items())
             for cl in c.all_ensures(vi):
                 props, lab, expr = self._clause(cl, self.func_stack[-1])
-                self.assume(self.eval_contract_expr(expr))
+                used = [g for g, _ in ghosts if re.search(r"\b%s\b" % re.escape(g), expr)]
+                if not used:
+                    self.assume(self.eval_contract_expr(expr))
+                    continue
+                if len(used) > 1:
+                    raise ContractError("more than one ghost variable in an assumed clause")
+                for trig in self.call_triggers(dict(ghosts)[used[0]]):
+                    self.env[used[0]] = trig
+                    self.assume(self.eval_contract_expr(expr))
             post = c.extra.get("post_hook")
             if post:
                 post(self, bound, result)
@@ -1417,6 +1644,27 @@ class Exec(Path):
         finally:
             self.frames.pop()
             self.func_stack.pop()
+
+    def call_triggers(self, typ):
+        """ground terms at which a callee's ghost-quantified clauses are instantiated: every constant of that
+        type in the source of the function under verification, plus that function's own ghost constants"""
+        top = self.func_stack[0]
+        out = []
+        seen = set()
+        if typ == "str":
+            for n in ast.walk(top["info"].node):
+                if isinstance(n, ast.Constant) and isinstance(n.value, str) and n.value not in seen and len(n.value) < 24 \
+                        and " " not in n.value and "%" not in n.value:
+                    seen.add(n.value)
+                    out.append(VStr(n.value))
+            c = top["contract"]
+            if c is not None:
+                for g, gt in c.ghost.items():
+                    if gt == "str" and g in self.frames[0]:
+                        out.append(self.frames[0][g])
+        else:
+            raise ContractError(f"ghost type {typ} not supported at call sites")
+        return out
 
     def havoc_target(self, m):
         node = ast.parse(m, mode="eval").body
@@ -1450,28 +1698,76 @@ class Exec(Path):
             return self.truth(v)
         return v
 
+    def eval_contract_expr_top(self, expr, want_bool=True):
+        """evaluate a clause of the function under verification from inside a nested frame (effects in callees)"""
+        saved_frames, saved_stack = self.frames, self.func_stack
+        self.frames = [saved_frames[0]]
+        self.func_stack = [saved_stack[0]]
+        try:
+            return self.eval_contract_expr(expr, want_bool)
+        finally:
+            self.frames, self.func_stack = saved_frames, saved_stack
+
     def eval_old(self, node):
+        """old(expr): evaluate in the entry snapshot.  Heap objects in the result are imported into the current
+        heap as detached deep copies, so that later dereferencing cannot see the current state."""
         if self.old is None:
             raise ContractError("old() outside postcondition")
         env0, heap0 = self.old
         saved_env, saved_heap = self.frames[-1], self.heap
-        # evaluate in the entry snapshot; snapshot objects are cloned so reads cannot disturb them
         self.frames[-1] = dict(env0)
         self.heap = {k: v.clone() for k, v in heap0.items()}
-        for k, v in saved_heap.items():
-            if k not in self.heap:
-                self.heap[k] = v
         try:
-            return self.eval(node)
+            v = self.eval(node)
+            oldheap = self.heap
         finally:
-            new_objs = {k: v for k, v in self.heap.items() if k not in heap0 and k not in saved_heap}
             self.frames[-1] = saved_env
             self.heap = saved_heap
-            self.heap.update(new_objs)
+        return self.import_value(v, oldheap, {})
+
+    def import_value(self, v, src_heap, memo):
+        if isinstance(v, VRef):
+            if v.rid in memo:
+                return memo[v.rid]
+            h = src_heap[v.rid].clone()
+            ref = self.alloc(h)
+            memo[v.rid] = ref
+            if isinstance(h, HObj):
+                for k, x in list(h.fields.items()):
+                    h.fields[k] = self.import_value(x, src_heap, memo)
+            elif isinstance(h, HDict):
+                for k, x in list(h.over.items()):
+                    if x is not DELETED and not isinstance(x, Cond):
+                        h.over[k] = self.import_value(x, src_heap, memo)
+            elif isinstance(h, HList) and h.items is not None:
+                h.items = [self.import_value(x, src_heap, memo) for x in h.items]
+            return ref
+        if isinstance(v, VTuple):
+            return VTuple([self.import_value(x, src_heap, memo) for x in v.items])
+        return v
 
     # -- creating symbolic inputs ---------------------------------------------------------
     def make_symbolic(self, name, typ):
         return self.engine.make_symbolic(self, name, typ)
+
+
+class MergeAbort(Exception):
+    pass
+
+
+def _mergeable(stmts):
+    """syntactic test: straight-line code (assignments, expression statements, nested ifs) only"""
+    for st in stmts:
+        if isinstance(st, (ast.Assign, ast.AugAssign, ast.AnnAssign, ast.Expr, ast.Pass)):
+            if any(isinstance(n, (ast.Yield, ast.YieldFrom, ast.Await)) for n in ast.walk(st)):
+                return False
+            continue
+        if isinstance(st, ast.If):
+            if not (_mergeable(st.body) and _mergeable(st.orelse)):
+                return False
+            continue
+        return False
+    return True
 
 
 def _loops_of(fnode):
